@@ -15,12 +15,15 @@ struct Job {
     n: u64,
     pace: bool,
     seed: u64,
+    /// stop merging (and drop) at this instant even if fewer than `n` updates were merged
+    deadline: Option<Instant>,
 }
 
 /// A persistent producer thread: for each job merges `0..n` (optionally paced) and drops the sender at once.
 pub struct Producer {
     jobs: Option<mpsc::Sender<Job>>,
-    results: mpsc::Receiver<Result<(), u64>>,
+    /// `Ok(k)`: merged `0..k` then dropped; `Err(x)`: `modify(x)` returned SendError
+    results: mpsc::Receiver<Result<u64, u64>>,
     handle: Option<std::thread::JoinHandle<()>>,
 }
 
@@ -29,10 +32,14 @@ impl Producer {
         let (jtx, jrx) = mpsc::channel::<Job>();
         let (rtx, rrx) = mpsc::channel();
         let handle = std::thread::spawn(move || {
-            while let Ok(Job { mut tx, n, pace, seed }) = jrx.recv() {
+            while let Ok(Job { mut tx, n, pace, seed, deadline }) = jrx.recv() {
                 let mut rng = Rng::new(seed);
-                let mut res = Ok(());
+                let mut res = Ok(n);
                 for x in 0..n {
+                    if x % 256 == 255 && deadline.is_some_and(|d| Instant::now() > d) {
+                        res = Ok(x);
+                        break;
+                    }
                     if tx.merge(x).is_err() {
                         res = Err(x);
                         break;
@@ -60,14 +67,21 @@ impl Producer {
         });
         Producer { jobs: Some(jtx), results: rrx, handle: Some(handle) }
     }
-    fn start(&self, tx: hooks::MergeSender, n: u64, pace: bool, seed: u64) {
-        self.jobs.as_ref().unwrap().send(Job { tx, n, pace, seed }).unwrap();
+    fn start(&self, tx: hooks::MergeSender, n: u64, pace: bool, seed: u64, deadline: Option<Instant>) {
+        self.jobs.as_ref().unwrap().send(Job { tx, n, pace, seed, deadline }).unwrap();
     }
-    fn finish(&self, ctx: &mut Ctx) {
+    /// Number of updates the producer merged before dropping the sender.
+    fn finish(&self, ctx: &mut Ctx) -> Option<u64> {
         match self.results.recv_timeout(Duration::from_secs(30)) {
-            Ok(Ok(())) => {}
-            Ok(Err(x)) => ctx.fail(format!("modify({}) returned SendError while the receiver is alive", x)),
-            Err(_) => ctx.fail("producer did not finish"),
+            Ok(Ok(k)) => Some(k),
+            Ok(Err(x)) => {
+                ctx.fail(format!("modify({}) returned SendError while the receiver is alive", x));
+                None
+            }
+            Err(_) => {
+                ctx.fail("producer did not finish");
+                None
+            }
         }
     }
 }
@@ -94,22 +108,32 @@ fn account(v: Vec<u64>, next: &mut u64, problems: &mut Vec<String>) {
     }
 }
 
-fn conclude(next: u64, n: u64, problems: Vec<String>, prod: &Producer, ctx: &mut Ctx) -> Option<u64> {
+fn conclude(next: u64, problems: Vec<String>, prod: &Producer, ctx: &mut Ctx) -> Option<u64> {
     for p in problems {
         ctx.fail(p);
     }
-    prod.finish(ctx);
-    if next != n {
-        ctx.fail(format!("None received after updates 0..{}, but 0..{} were merged before the drop", next, n));
+    if let Some(merged) = prod.finish(ctx) {
+        if next != merged {
+            ctx.fail(format!("None received after updates 0..{}, but 0..{} were merged before the drop", next, merged));
+        }
     }
     Some(next)
 }
 
 /// The consumer is a task on a current-thread tokio runtime: it really parks, so a lost wake-up is a hang.
 /// mode 0: plain `recv().await` loop; 1 / 2: `recv` inside a `select!` that keeps cancelling and restarting it.
-fn tokio_round(rt: &tokio::runtime::Runtime, prod: &Producer, n: u64, mode: u64, seed: u64, pace: bool, ctx: &mut Ctx) -> Option<u64> {
+fn tokio_round(
+    rt: &tokio::runtime::Runtime,
+    prod: &Producer,
+    n: u64,
+    mode: u64,
+    seed: u64,
+    pace: bool,
+    deadline: Option<Instant>,
+    ctx: &mut Ctx,
+) -> Option<u64> {
     let (tx, mut rx) = hooks::channel();
-    prod.start(tx, n, pace, seed);
+    prod.start(tx, n, pace, seed, deadline);
     let consumer = async {
         let mut next = 0u64; // the next update expected
         let mut problems: Vec<String> = Vec::new();
@@ -141,7 +165,7 @@ fn tokio_round(rt: &tokio::runtime::Runtime, prod: &Producer, n: u64, mode: u64,
             ctx.fail(format!("consumer did not finish within {} s: lost wake-up (hang)", limit.as_secs()));
             None
         }
-        Ok((next, problems)) => conclude(next, n, problems, prod, ctx),
+        Ok((next, problems)) => conclude(next, problems, prod, ctx),
     }
 }
 
@@ -166,7 +190,7 @@ fn spin_round(prod: &Producer, n: u64, keep: bool, ctx: &mut Ctx) -> Option<u64>
     let cw = Arc::new(CountWaker(AtomicUsize::new(0)));
     let waker = Waker::from(cw.clone());
     let mut cx = Context::from_waker(&waker);
-    prod.start(tx, n, false, 0);
+    prod.start(tx, n, false, 0, None);
     let mut next = 0u64;
     let mut problems: Vec<String> = Vec::new();
     let t0 = Instant::now();
@@ -210,39 +234,46 @@ fn spin_round(prod: &Producer, n: u64, keep: bool, ctx: &mut Ctx) -> Option<u64>
             }
         }
     }
-    conclude(next, n, problems, prod, ctx)
+    conclude(next, problems, prod, ctx)
 }
 
 pub fn run_stress(n: u64, mode: u64, seed: u64, ctx: &mut Ctx) -> String {
     let rt = tokio::runtime::Builder::new_current_thread().enable_time().build().unwrap();
     let prod = Producer::new();
-    match tokio_round(&rt, &prod, n, mode, seed, true, ctx) {
+    // wall-clock budget: on a loaded machine the producer merges fewer than `n` updates instead of taking longer
+    let deadline = Instant::now() + Duration::from_millis(200 + n / 100);
+    match tokio_round(&rt, &prod, n, mode, seed, true, Some(deadline), ctx) {
         None => "hang".into(),
-        Some(next) => format!("received=0..{} in-order none-last", next),
+        Some(_) if !ctx.oracle_failures.is_empty() => "stream broken".into(),
+        Some(_) => "stream-complete in-order none-last".into(),
     }
 }
 
 /// `reps` rounds of a tiny stream (`n` merges, then the drop at once): exercises the end-of-stream windows
 /// (merge_channel.rs:162-170 against 110-128) `reps` times. One round in eight parks on a tokio runtime (a lost
-/// wake-up is a hang), the others busy-poll.
+/// wake-up is a hang), the others busy-poll. Stops early when the wall-clock budget is used up.
 pub fn run_race(reps: u64, n: u64, _seed: u64, ctx: &mut Ctx) -> String {
     let rt = tokio::runtime::Builder::new_current_thread().enable_time().build().unwrap();
     let prod = Producer::new();
-    let mut good = 0;
+    // wall-clock budget so that a loaded machine does fewer rounds instead of taking longer (unloaded, the
+    // rounds need about a fifth of it)
+    let budget = Duration::from_millis(200 + reps / 8);
+    let t0 = Instant::now();
     for r in 0..reps {
         let res = match r % 8 {
-            0 => tokio_round(&rt, &prod, n, 0, r, false, ctx),
-            4 => tokio_round(&rt, &prod, n, 1, r, false, ctx),
+            0 => tokio_round(&rt, &prod, n, 0, r, false, None, ctx),
+            4 => tokio_round(&rt, &prod, n, 1, r, false, None, ctx),
             k => spin_round(&prod, n, k % 2 == 1, ctx),
         };
-        match res {
-            None => return "hang".into(),
-            Some(next) if next == n => good += 1,
-            Some(_) => {}
+        if res.is_none() {
+            return "hang".into();
         }
-        if ctx.oracle_failures.len() > 5 {
+        if !ctx.oracle_failures.is_empty() {
+            return format!("round {} failed", r);
+        }
+        if r % 64 == 63 && t0.elapsed() > budget {
             break;
         }
     }
-    format!("rounds={} each=0..{} in-order none-last", good, n)
+    format!("every-round each=0..{} in-order none-last", n)
 }
